@@ -1,6 +1,5 @@
 from __future__ import annotations
 
-from collections import defaultdict
 from copy import deepcopy
 from types import MappingProxyType
 from typing import TYPE_CHECKING
@@ -61,7 +60,7 @@ class MolGraph:
             # plain dicts: looking up an atom or bond that is not in the
             # graph has to raise KeyError instead of creating it
             self._atom_attrs = {}
-            self._neighbors = defaultdict(set)
+            self._neighbors = {}
             self._bond_attrs = {}
 
     @property
@@ -178,6 +177,8 @@ class MolGraph:
         atom_type = PERIODIC_TABLE[atom_type]
 
         self._atom_attrs[atom] = {"atom_type": atom_type, **attr}
+        # every atom has an entry in the neighbor table and nothing else has
+        self._neighbors.setdefault(atom, set())
 
     def remove_atom(self, atom: AtomId):
         """Removes atom from graph.
@@ -186,9 +187,9 @@ class MolGraph:
         :raises: KeyError if atom is not in graph.
         """
         del self._atom_attrs[atom]
-        if nbr := self._neighbors.pop(atom, None):
-            for n in nbr:
-                self.remove_bond(atom, n)
+        for n in tuple(self._neighbors.get(atom, ())):
+            self.remove_bond(atom, n)
+        self._neighbors.pop(atom, None)
 
     def get_atom_attribute(self, atom: AtomId, attr: str) -> Optional[Any]:
         """
@@ -489,7 +490,7 @@ class MolGraph:
             new_graph = self
 
         new_graph._atom_attrs = atom_attrs
-        new_graph._neighbors = defaultdict(set, neighbors)
+        new_graph._neighbors = neighbors
         new_graph._bond_attrs = bond_attrs
         return new_graph
 
@@ -546,7 +547,7 @@ class MolGraph:
         }
         new_graph = self.__class__()
         new_graph._atom_attrs = atom_attrs
-        new_graph._neighbors = defaultdict(set, neighbors)
+        new_graph._neighbors = neighbors
         new_graph._bond_attrs = bond_attrs
         return new_graph
 
@@ -610,7 +611,7 @@ class MolGraph:
             )
 
             for atom, neighbors in mol_graph._neighbors.items():
-                new_graph._neighbors[atom].update(neighbors)
+                new_graph._neighbors.setdefault(atom, set()).update(neighbors)
 
         return new_graph
 
